@@ -20,6 +20,7 @@ import (
 	"github.com/cnotch/ipchub/media/cache"
 	"github.com/cnotch/ipchub/stats"
 	"github.com/cnotch/ipchub/utils"
+	"github.com/cnotch/ipchub/utils/verifhook"
 	"github.com/cnotch/queue"
 	"github.com/cnotch/xlog"
 )
@@ -177,6 +178,7 @@ func (s *Stream) close(status int32) error {
 		status = StreamClosed
 	}
 	atomic.StoreInt32(&s.status, status)
+	verifhook.Point("close.status", 0)
 
 	// 关闭 hls
 	if s.tsMuxer != nil {
@@ -206,8 +208,10 @@ func (s *Stream) WriteRtpPacket(packet *rtp.Packet) error {
 	}
 
 	atomic.AddUint64(&s.size, uint64(packet.Size()))
+	verifhook.Point("write.checked", 0)
 
 	keyframe := s.cache.CachePack(packet)
+	verifhook.Point("write.cached", 0)
 	s.consumptions.SendToAll(packet, keyframe)
 
 	s.rtpDemuxer.WriteRtpPacket(packet)
@@ -234,7 +238,9 @@ func (s *Stream) WriteFlvTag(tag *flv.Tag) error {
 		return statusErrors[status]
 	}
 
+	verifhook.Point("flvwrite.checked", 0)
 	keyframe := s.flvCache.CachePack(tag)
+	verifhook.Point("flvwrite.cached", 0)
 	s.flvConsumptions.SendToAll(tag, keyframe)
 	return nil
 }
@@ -281,7 +287,9 @@ func (s *Stream) startConsume(consumer Consumer, packetType PacketType, extra st
 	if useGopCache {
 		c.sendGop(cache) // 新消费者，先发送gop缓存
 	}
+	verifhook.Point("attach.snapped", uint32(c.cid))
 	cs.Add(c)
+	verifhook.Point("attach.added", uint32(c.cid))
 
 	go c.consume()
 	return c.cid
